@@ -106,3 +106,24 @@ Theorem C03_acyclic_input_all_downward : forall o g g' x, component_input g -> o
   forall e, In e (g_E g) -> self_loop g e = false -> e_ahs (gedge g' e) = false.
 Proof. exact G2_acyclic_input_has_no_upward_edge. Qed.
 Print Assumptions C03_acyclic_input_all_downward.
+
+(* ---------- every positioner, Brandes-Koepf and the NetworkSimplex positioner included (Model/PipelineBK.v) ---------- *)
+From Autog Require Import PipelineBK BKPipeline BKPipeline2.
+
+Theorem C03_component_end_to_end_any_positioner : forall bk o g g' x, component_input g -> modelled_p5 (o_p5 o) ->
+  layout_component_x bk o g = Ok (g', x) -> E2_statement (o_layer_spacing o) g g'.
+Proof. exact Gx2_bands_any. Qed.
+Print Assumptions C03_component_end_to_end_any_positioner.
+
+Theorem C03_band_separation_any_positioner : forall bk o g g' x, component_input g -> modelled_p5 (o_p5 o) ->
+  layout_component_x bk o g = Ok (g', x) ->
+  forall k n m, In n (l_nodes (glayer g' k)) -> In m (l_nodes (glayer g' (S k))) ->
+    (nY g' n + nH g' n + o_layer_spacing o <= nY g' m)%Q.
+Proof. exact Gx2_band_separation_any. Qed.
+Print Assumptions C03_band_separation_any_positioner.
+
+Theorem C03_acyclic_input_all_downward_any_positioner : forall bk o g g' x, component_input g -> modelled_p5 (o_p5 o) ->
+  layout_component_x bk o g = Ok (g', x) -> CBBase.ranked (fst (Populate.ignore_self_loops g)) ->
+  forall e, In e (g_E g) -> self_loop g e = false -> e_ahs (gedge g' e) = false.
+Proof. exact Gx2_acyclic_input_has_no_upward_edge_any. Qed.
+Print Assumptions C03_acyclic_input_all_downward_any_positioner.
